@@ -1,44 +1,55 @@
 import Fabio.Generated.C11
 import Fabio.Model.C11
-/-! Obligations over the facts regenerated from `/repo/cert` on every run. -/
+/-!
+Obligations over the facts regenerated from `/repo/cert` on every run.
+
+The facts are extracted by role and by event, not by spelling (`tools/factgen/c11.go`): variables are named by
+what they are (i-th parameter, "assigned from the loader call", "the value sent on the channel"), helper calls
+are followed, package constants are resolved and `switch` is normalised to `if`. A behaviour-preserving
+refactoring (renaming locals, extracting a helper, a named constant for `time.Second`, switch ↔ if) leaves
+them unchanged; a change of the loop's shape does not.
+-/
 namespace Fabio.Props.C11Facts
 open Fabio Fabio.Generated.C11
 
-/-- `watch` has exactly the three `continue` sites the step machine models (loader error, unchanged material,
-unusable material) and **each of them is preceded by a `time.Sleep` in its block** — the model's
-`sleepOnMakeErr = true`, the hypothesis of `watch_no_spin`. -/
-theorem every_continue_sleeps :
-    continueConds = ["err != nil", "reflect.DeepEqual(next, last)", "err != nil"] ∧
-    continueSleeps = [true, true, true] := by decide
+/-- One iteration of `watch` is exactly `Model.C11.step` with `sleepOnMakeErr = true`: one loader call on the
+path; on a loader error sleep(refresh) and retry; on material equal (`reflect.DeepEqual`) to the last published
+one sleep(refresh) and retry; one `loadCertificates` call on the loaded material; on its error
+**sleep(refresh)** and retry (the repair of D15); otherwise one send of the made certificates on the channel,
+then `last = next`, then return iff `once`. Nothing is sent and `last` is not touched on any retry path. -/
+theorem watch_loop_is_the_step_machine :
+    watchLoopEvents =
+      ["load", "if load-error: sleep continue", "if unchanged: sleep continue", "make:loadCertificates",
+       "if make-error: sleep continue", "send", "remember", "if once: return"] := by decide
 
-/-- Every sleep is for `refresh`, which was raised to one second before the loop; `once` is `refresh <= 0`
-evaluated before the floor is applied (`Model.C11.effRefresh`, `Model.C11.once`). -/
+/-- `refresh` is raised to `time.Second` before the loop (`Model.C11.effRefresh`); `once` is `refresh <= 0`
+evaluated before the floor is applied (`Model.C11.once`). -/
 theorem sleeps_are_floored :
-    sleepArgs.all (· == "refresh") = true ∧ refreshFloorCond = "refresh < time.Second" ∧
-    refreshFloorAssign = "refresh = time.Second" ∧ onceExpr = "refresh <= 0" := by decide
+    refreshFloor = "time.Second" ∧ onceExpr = "refresh <= 0" ∧ onceBeforeFloor = true := by decide
 
-/-- One loader call, one `loadCertificates` call and one channel send per iteration (`Model.C11.step`). -/
-theorem one_load_one_send_per_iteration :
-    watchLoaderCalls = 1 ∧ watchMakeCalls = 1 ∧ watchSends = 1 := by decide
-
-/-- A handshake loads the store exactly once and hands that value to `getCertificate`, which reads no shared
-state itself (`Op.hsLoad` / `Op.hsAnswer`). -/
+/-- A handshake performs exactly one atomic load (counting through `Store.certstore` and every helper it
+calls) and one call of `getCertificate`, which receives the loaded value by value and touches no shared state
+itself (`Op.hsLoad` / `Op.hsAnswer`). -/
 theorem handshake_loads_store_once :
-    handshakeStoreLoads = 1 ∧ handshakeGetCertificateCalls = 1 ∧ handshakeGetCertificateArg0 = "store.certstore()" ∧
-    certstoreLoads = 1 ∧ getCertificateSharedReads = 0 ∧ getCertificateParam0Type = "certstore" := by decide
+    handshakeAtomicLoads = 1 ∧ handshakeDecisionCalls = 1 ∧ getCertificateSharedAccesses = 0 ∧
+    getCertificateTakesLoadedValue = true := by decide
 
-/-- `SetCertificates` builds the index first and then performs the single atomic store (`Op.publish` stores a
-complete `mkPublished cs`); `TLSConfig` has one place that applies updates. -/
+/-- `SetCertificates` builds the index first and then performs the single atomic store, and writes nothing
+afterwards (`Op.publish` stores a complete `mkPublished cs`); `TLSConfig` applies updates at one place, inside
+the range over the source's channel (sets are applied in the order they are published). -/
 theorem index_built_before_store :
-    setCertificatesOrder = ["cs.BuildNameToCertificate", "s.cs.Store"] ∧ tlsConfigSetCertificatesCalls = 1 := by decide
+    setCertificatesOrder = ["build-index", "atomic-store"] ∧ tlsConfigApplySites = 1 ∧
+    tlsConfigApplySitesInRangeOverSource = 1 := by decide
 
-/-- The requested name and every index key are lower-cased (`Model.C11.normName`, `Model.C11.keyOf`). -/
+/-- The requested `ServerName` passes through `strings.ToLower` exactly once and every key written into the
+name index does (`Model.C11.normName`, `Model.C11.keyOf`; D15b). -/
 theorem names_lowered_on_both_sides :
-    requestLowered = ["clientHello.ServerName"] ∧ indexKeysLowered = true ∧ indexKeys.length = 2 := by decide
+    requestLowered = ["field:ServerName"] ∧ indexKeyWrites = 2 ∧ indexKeyWritesLowered = indexKeyWrites := by decide
 
-/-- `loadCertificates` sorts the certificate file names and distinguishes the three suffixes in the modelled
-order (`Model.C11.classify`). -/
+/-- `loadCertificates` sorts the certificate file names once and builds its result by ranging over that sorted
+slice; the three suffixes are tested in the modelled order (`Model.C11.classify`). -/
 theorem load_sorted_by_file_name :
-    loadCertificatesSorts = ["n"] ∧ loadCertificatesSuffixes = ["-cert.pem", "-key.pem", ".pem"] := by decide
+    loadCertificatesSortCalls = 1 ∧ resultBuiltFromSortedFileNames = true ∧
+    loadCertificatesSuffixes = ["-cert.pem", "-key.pem", ".pem"] := by decide
 
 end Fabio.Props.C11Facts
